@@ -231,8 +231,10 @@ def check_classification(ctx, tree, outputs, messages, rng, big=False):
                 f'gave {got_msgs}, the truth table requires {want_msgs}',
                 {**desc, 'disable': disable, 'got': got_msgs,
                  'want': want_msgs})
-    if len(ctx.samples) < 2 and M.leaves(tree) >= 3:
-        ctx.sample({**desc, 'classification': M.classify_tree(tree, allcv)})
+    if (len(ctx.samples) < 2 and M.leaves(tree) >= 3
+            and (ctx.shard % 3 == 0 or ctx.nshards < 3)):
+        ctx.sample({**desc, 'monitor': 'A classification',
+                    'classification': M.classify_tree(tree, allcv)})
 
 
 def _word(v):
@@ -444,9 +446,10 @@ def validation_case(ctx, rng):
                 f'completion = {text!r} rejected although consistent with '
                 f'graph marks {desc["graph_marks"]}: '
                 f'{desc.get("error", "")[:160]}', desc)
-        elif len(ctx.samples) < 4:
-            ctx.sample({k_: v for k_, v in desc.items()
-                        if k_ != 'flow_cylc'})
+        elif len(ctx.samples) < 2 and (
+                ctx.shard % 3 == 1 or ctx.nshards < 3):
+            ctx.sample({'monitor': 'B validation', 'outcome': outcome,
+                        **desc})
     if cfg is not None:
         skip_check(ctx, cfg.taskdefs['a'], marks, tree, outputs, messages,
                    'WorkflowConfig', desc_extra={'flow_cylc': flow})
@@ -539,6 +542,12 @@ def skip_check(ctx, tdef, marks, tree, outputs, messages, route,
                 'C12:skip:not-exactly-one-of-succeeded-failed',
                 f'skip mode generates {sorted(got)}',
                 {**desc, 'generated': sorted(got)})
+    if required and len(ctx.samples) < 2 and (
+            ctx.shard % 3 == 2 or ctx.nshards < 3) and any(
+            o not in M.STD for o in required):
+        ctx.sample({'monitor': 'C skip mode', **{
+            k_: v for k_, v in desc.items() if k_ != 'flow_cylc'},
+            'generated': sorted(got)})
     if required:
         ctx.count('skip_nonempty_required')
     if any(o not in M.STD for o in required):
